@@ -261,9 +261,9 @@ func c19(c *core.Ctx, r *core.Report) {
 					k, isK := core.ConstInt(idx)
 					ok, why := false, "index is not a constant under a length guard"
 					if !isK && countedMapFill(base, idx) {
-					ok, why = true, "counter of a range over map m indexing make([]T, len(m))"
-				}
-				if !isK && loopIndexInRange(base, idx, b) {
+						ok, why = true, "counter of a range over map m indexing make([]T, len(m))"
+					}
+					if !isK && loopIndexInRange(base, idx, b) {
 						ok, why = true, "counting index under a dominating i < len(base) guard"
 					}
 					if isK {
